@@ -110,6 +110,25 @@ func viewHandles(lines []string, tree int) []int {
 	return hs
 }
 
+func treePrefix(tree int) string {
+	if tree == 1 {
+		return "2 "
+	}
+
+	return ""
+}
+
+// spied: the tree has the recording store installed (its first request was `spy`).
+func spied(lines []string, tree int) bool {
+	for _, l := range lines {
+		if l == treePrefix(tree)+"spy" {
+			return true
+		}
+	}
+
+	return false
+}
+
 // genPairCase: a history over two store trees with copies between (and within) them.
 func genPairCase(rng *hx.Rng) []string {
 	a := genCase(rng, 34)
@@ -131,12 +150,22 @@ func genPairCase(rng *hx.Rng) []string {
 			}
 			v := hx.Pick(rng, viewHandles(ops, s))
 			w := hx.Pick(rng, viewHandles(ops, d))
+			// now and then the copy runs into a target whose Flush fails (only a traced tree can inject the fault): the error
+			// paths of Copy / CopyBatched - first Set / first Commit of a flushkv target, the final Flush of any other
+			armed := false
+			if spied(ops, d) && rng.Chance(1, 4) {
+				armed = true
+				ops = append(ops, treePrefix(d)+"arm")
+			}
 			if rng.Chance(2, 5) {
 				ops = append(ops, fmt.Sprintf("copy %d %d %d %d", s+1, v, d+1, w))
 			} else {
 				ops = append(ops, fmt.Sprintf("copyb %d %d %d %d %d", s+1, v, d+1, w, rng.Intn(6)))
 			}
 			ops = append(ops, "iter 0 - fwd 0", "2 iter 0 - bwd 0")
+			if armed && rng.Chance(3, 4) {
+				ops = append(ops, treePrefix(d)+"disarm")
+			}
 		}
 	}
 
